@@ -1,4 +1,8 @@
 #![cfg_attr(coverage_nightly, feature(coverage_attribute))]
 
+#![allow(unexpected_cfgs)]
+
 pub mod convert;
 pub mod data;
+#[cfg(truc_verif_hooks)]
+pub mod verif;
